@@ -81,7 +81,7 @@ func genC17(r *Rng, k int, tier string) *RunSpec {
 			d["@context"] = asCtx
 			st.W.Remote = append(st.W.Remote, DocSpec{id, mustJSON(d)})
 			if r.Intn(6) == 0 {
-				st.W.Fate[id] = Pick(r, []string{"unreachable", "unknowntype"})
+				st.W.Fate[id] = Pick(r, []string{"unreachable", "unknowntype", "nocontext", "notype", "trailing"})
 			}
 			return id
 		}
@@ -130,7 +130,22 @@ func genC17(r *Rng, k int, tier string) *RunSpec {
 		if top != nil {
 			n["inReplyTo"] = withSecond(top)
 		}
+		if r.Intn(4) == 0 {
+			// beside the reply chain, a tag whose document cannot be interpreted (or fetched): that branch is a dead end, the
+			// search goes on along the others
+			hid := "https://" + hostR + "/tags/c17"
+			st.W.Remote = append(st.W.Remote, DocSpec{hid, mustJSON(J{"@context": asCtx, "type": "Note", "id": hid, "name": "#c17"})})
+			st.W.Fate[hid] = Pick(r, []string{"nocontext", "notype", "trailing", "unreachable", "nonjson"})
+			n["tag"] = hid
+		}
 		f["object"] = n
+		if r.Intn(3) == 0 {
+			// the Create names its object by reference; what is forwarded is still the activity as it was received
+			d := cloneJ(n)
+			d["@context"] = asCtx
+			st.W.Remote = append(st.W.Remote, DocSpec{n["id"].(string), mustJSON(d)})
+			f["object"] = n["id"]
+		}
 	case "Add":
 		f["object"] = st.RNote
 		if top != nil {
